@@ -152,6 +152,87 @@ def shrink(logic, K, tree, entry, differs):
     return K, tree
 
 
+def _subs(t, acc):
+    if t in ('tt', 'ff') or t[0] == 'ap':
+        return
+    acc.append(t)
+    for c in t[1:]:
+        _subs(c, acc)
+
+
+def _rename(t, m):
+    if t in ('tt', 'ff'):
+        return t
+    if t[0] == 'ap':
+        return ('ap', m.get(t[1], t[1]))
+    return (t[0],) + tuple(_rename(c, m) for c in t[1:])
+
+
+ADVERSARIAL_WITNESS = {
+    # (succ, labels, formula tree, expected answer) — replayed on the real code on every run
+    'CTL': ([[0], [1]], [['p', 'not p'], []], ('or', ('ap', 'not p'), ('not', ('ap', 'p'))), [0, 1]),
+    'LTL': ([[0]], [['p', 'not p']], ('A', ('and', ('ap', 'p'), ('ap', 'not p'))), [0]),
+    'CTLS': ([[1], [0]], [['p'], []], ('and', ('E', ('X', ('ap', 'p'))), ('not', ('ap', '[E(X(p))]'))), [1]),
+}
+
+
+def adversarial_names_stream(res, logic, gen_tree, rng, quick, pid):
+    """Atoms whose NAME reads like a formula (the printed form of a subformula, a generated `[...]` name, `not p`).
+    The instance is isomorphic to one with identifier atoms, so the truth is the model's answer on the clean instance
+    (inside the exactness theorem).  The library identifies formulas by their printed text (memo table, ==/hash inside
+    the LTL tableau, fresh CTL* atoms), so wrong answers here are the recorded finding KF-<pid>-names; for CTL the
+    as-implemented memo model (CTLM) must reproduce the wrong answer, otherwise it is a new violation."""
+    cases = []
+    for _ in range(200 if quick else 2000):
+        K = common.random_structure(rng, 4)
+        t = gen_tree()
+        acc = []
+        _subs(t[1] if logic == 'LTL' else t, acc)
+        if not acc:
+            continue
+        try:
+            txt = str(to_obj(rng.choice(acc), lang(logic)))
+        except Exception:
+            continue
+        style = rng.choice(['print', 'bracket', 'not'])
+        name = txt if style == 'print' else ('[' + txt + ']' if style == 'bracket' else 'not p')
+        m = {rng.choice(['p', 'q']): name}
+        cases.append((K, t, KS(K.succ, [[m.get(l, l) for l in ls] for ls in K.labs]), _rename(t, m)))
+    impl = [norm(x) for x in impl_batch([(logic, K2.succ, K2.labs, t2, 'obj') for _, _, K2, t2 in cases])]
+    truth = [norm(x) for x in lean_batch(['%s|%s|%s' % (logic, K.enc(), sexpr(t)) for K, t, _, _ in cases])]
+    cmd = 'CTLM' if logic == 'CTL' else logic
+    asimpl = [norm(x) for x in lean_batch(['%s|%s|%s' % (cmd, K2.enc(), sexpr(t2)) for _, _, K2, t2 in cases])]
+    known_hits = new = infidel = 0
+    for (K, t, K2, t2), a, tr, m in zip(cases, impl, truth, asimpl):
+        if a != tr:
+            if logic != 'CTL' or a == m:
+                known_hits += 1
+            else:
+                new += 1
+                if new <= 2:
+                    res.violation('%s.modelcheck(%s) = %s; the isomorphic instance with identifier atoms has answer %s and the '
+                                  'as-implemented memo model gives %s: a wrong answer that the recorded finding does not explain'
+                                  % (logic, tree_str(t2), a, tr, m),
+                                  {'logic': logic, 'structure': K2.describe(), 'formula_sexpr': sexpr(t2), 'impl': a, 'truth': tr, 'memo_model': m})
+        elif logic == 'CTL' and a != m:
+            infidel += 1
+            if infidel <= 2:
+                res.violation('CTL.modelcheck(%s) = %s (correct) but the memo model CTLM gives %s: correspondence CTL.checkM vs '
+                              '_checkStateFormula\'s memo table no longer checks' % (tree_str(t2), a, m),
+                              {'logic': logic, 'structure': K2.describe(), 'formula_sexpr': sexpr(t2), 'impl': a, 'model': m,
+                               'correspondence': 'PMC.CTL.checkM (PMC/Model/CTLMemo.lean) vs CTL._checkStateFormula'}, no_input=True)
+    succ, labs, wt, want = ADVERSARIAL_WITNESS[logic]
+    w = norm(impl_one((logic, succ, labs, wt, 'obj')))
+    live = (w != 'OK ' + ' '.join(map(str, want)))
+    if live:
+        for k in common.known_findings(pid):
+            if k['id'].endswith('-names'):
+                res.known.append('%s: %s' % (k['id'], k['what']))
+    return {'adversarial_name_cases': len(cases), 'adversarial_name_known_finding_instances': known_hits,
+            'adversarial_name_unexplained_wrong_answers': new, 'adversarial_name_memo_model_deviations': infidel,
+            'adversarial_name_witness_still_fails': live}
+
+
 def run_cases(res, logic, cases, what, known=None):
     """cases: list of (KS, tree, entry).  Compares implementation and Lean model; records violations.
 
